@@ -295,6 +295,38 @@ def case_scramble_history(col, p):
     col.distinct('nontrivial', ('scramble_history', len(p['sequences']), tuple(map(tuple, p['sequences'][0])), bool(p.get('view'))))
 
 
+def case_scramble_large(col, p):
+    """scrambling with more than a thousand pooled chromosomes (binomial coefficients beyond the floating-point range): every entry against the
+    exact hypergeometric re-dealing in integer arithmetic"""
+    import dadi
+    ns = tuple(p['ns'])
+    shape = tuple(x + 1 for x in ns)
+    N = sum(ns)
+    data = (1.0 + (np.arange(int(np.prod(shape))) * 7 % 11).reshape(shape)) / 4.0
+    out = dadi.Spectrum(data).scramble_pop_ids()
+    col.tick(transitions=1)
+    got = np.asarray(out.data)
+    idxs = list(np.ndindex(*shape))
+    pooled = [Fraction(0)] * (N + 1)
+    for idx in idxs[1:-1]:
+        pooled[sum(idx)] += Fraction(float(data[idx]))
+    worst, tot = 0.0, Fraction(0)
+    for idx in idxs[1:-1]:
+        w = 1
+        for n_k, d_k in zip(ns, idx):
+            w *= comb(n_k, d_k)
+        ex = Fraction(w, comb(N, sum(idx))) * pooled[sum(idx)]
+        tot += ex
+        exf = float(ex)
+        g = got[idx]
+        e = abs(g - exf) / max(abs(exf), 1e-300) if np.isfinite(g) else float('inf')
+        worst = max(worst, e)
+    if not worst <= 1e-9:
+        col.violation('C10:scramble_pop_ids:large_pooled_sample', dict(p), {'maxrel': worst, 'total_got': float(np.nansum(got.ravel()[1:-1])), 'total_exact': float(tot)})
+    col.tick(states=1, traces=1)
+    col.distinct('nontrivial', ('scramble_large', ns))
+
+
 def case_bfs(col, p):
     import dadi
     ns = tuple(p['ns'])
@@ -367,7 +399,7 @@ def case_bfs(col, p):
     col.distinct('nontrivial', ('bfs', ns))
 
 
-CASES = {'operator': case_operator, 'bfs': case_bfs, 'scramble_history': case_scramble_history}
+CASES = {'scramble_large': case_scramble_large, 'operator': case_operator, 'bfs': case_bfs, 'scramble_history': case_scramble_history}
 
 
 def _dispatch(col, case):
@@ -412,6 +444,8 @@ def run(ctx):
         for lo in range(0, len(seqs), 10):
             cases.append({'kind': 'scramble_history', 'sequences': seqs[lo:lo + 10], 'ns': fam[0]})
         cases.append({'kind': 'scramble_history', 'sequences': [[x] for x in fam], 'ns': fam[0], 'view': True})
+    for ns_l in ((1028, 2), (3, 1100), (700, 1, 400)):
+        cases.append({'kind': 'scramble_large', 'ns': ns_l})
     from mc.evidence import Collector
     a, b = Collector(), Collector()
     _dispatch(a, cases[1]); _dispatch(b, cases[1])
